@@ -421,7 +421,18 @@ func e2eRun(in e2eInput) e2eObs {
 			}
 		}
 		send(append(hdr, '\n'))
-		for _, r := range raws {
+		for ri, r := range raws {
+			if string(r) == "clear" && (ri+in.Serial)%2 == 0 {
+				// the camera's marker arriving in two reads: the first part alone, nothing else buffered
+				k := 1 + (ri+in.Serial/2)%4
+				waitDrained(conn)
+				conn.Write(r[:k])
+				waitDrained(conn)
+				time.Sleep(2 * time.Millisecond)
+				conn.Write(r[k:])
+				waitDrained(conn)
+				continue
+			}
 			send(r)
 			// Pace like a camera: wait until the recorder has read the frame, then a little more.
 			// File names have millisecond resolution; in the field frames are >= 16 ms apart, here
